@@ -2,8 +2,33 @@ package core
 
 import (
 	"fmt"
+	"sync"
 	"syscall"
+	"unsafe"
 )
+
+var (
+	roMu     sync.Mutex
+	roRanges = map[uintptr]uintptr{} // start -> end of every live read-only buffer
+)
+
+// FaultInROBuf reports whether a recovered panic value is a memory fault (debug.SetPanicOnFault) whose
+// address lies inside a live read-only input buffer, i.e. the code under test wrote to its input.
+func FaultInROBuf(r any) bool {
+	a, ok := r.(interface{ Addr() uintptr })
+	if !ok {
+		return false
+	}
+	addr := a.Addr()
+	roMu.Lock()
+	defer roMu.Unlock()
+	for s, e := range roRanges {
+		if addr >= s && addr < e {
+			return true
+		}
+	}
+	return false
+}
 
 // ROBuf is a byte slice living in anonymous mmap'ed pages that have been set to
 // PROT_READ: any write through it faults. With debug.SetPanicOnFault(true) on the
@@ -29,12 +54,19 @@ func NewROBuf(b []byte) (*ROBuf, error) {
 		syscall.Munmap(mem)
 		return nil, fmt.Errorf("mprotect: %w", err)
 	}
+	start := uintptr(unsafe.Pointer(&mem[0]))
+	roMu.Lock()
+	roRanges[start] = start + uintptr(len(mem))
+	roMu.Unlock()
 	return &ROBuf{mem: mem, B: mem[:len(b):len(b)]}, nil
 }
 
 // Free unmaps the pages; the slice must not be used afterwards.
 func (r *ROBuf) Free() {
 	if r.mem != nil {
+		roMu.Lock()
+		delete(roRanges, uintptr(unsafe.Pointer(&r.mem[0])))
+		roMu.Unlock()
 		syscall.Munmap(r.mem)
 		r.mem, r.B = nil, nil
 	}
